@@ -238,8 +238,29 @@ func runCheck(id, tier string, args []string) (code int) {
 			fmt.Printf("  %-8s %d obligation(s)\n", r, ruleCounts[r])
 		}
 	}
+	// thorough tier: checker self-test — every registered mutant of this property (a single-fragment
+	// change of /repo applied through a source overlay, nothing is written) must make its rule fire.
+	var mres []MutantResult
+	if tier == "thorough" && len(o.overlay) == 0 {
+		mres = runMutants(id, o.repo)
+		det, missed, na := 0, 0, 0
+		for _, r := range mres {
+			switch r.Status {
+			case "detected":
+				det++
+			case "not-applicable":
+				na++
+			default:
+				missed++
+				fmt.Printf("SELFTEST %s %s expect=%s %s\n", r.Status, r.ID, r.Expect, r.Detail)
+			}
+		}
+		if !o.quiet {
+			fmt.Printf("  self-test: %d mutant(s): %d detected, %d not applicable to this tree, %d missed\n", len(mres), det, na, missed)
+		}
+	}
 	if !o.noEvidence {
-		writeEvidence(prop, tier, all, failed, knownHit, fns, callSites, pkgs, ruleCounts, time.Since(t0).Seconds())
+		writeEvidence(prop, tier, all, failed, knownHit, fns, callSites, pkgs, ruleCounts, time.Since(t0).Seconds(), mres)
 	}
 	if len(failed) > 0 {
 		sort.SliceStable(failed, func(i, j int) bool { return len(failed[i].Detail) < len(failed[j].Detail) })
@@ -258,7 +279,7 @@ func runCheck(id, tier string, args []string) (code int) {
 	return 0
 }
 
-func writeEvidence(prop *Property, tier string, all, failed, knownHit []eng.Obligation, fns map[string]bool, callSites, pkgs int, ruleCounts map[string]int, wall float64) {
+func writeEvidence(prop *Property, tier string, all, failed, knownHit []eng.Obligation, fns map[string]bool, callSites, pkgs int, ruleCounts map[string]int, wall float64, mres []MutantResult) {
 	discharged := 0
 	var samples []any
 	perRuleSample := map[string]int{}
@@ -303,6 +324,7 @@ func writeEvidence(prop *Property, tier string, all, failed, knownHit []eng.Obli
 			"packages_loaded":              pkgs,
 			"known_findings_hit":           len(knownHit),
 			"samples":                      samples,
+			"selftest_mutants":             mutantSummary(mres),
 			"exhaustive":                   false,
 			"checker_cmd":                  fmt.Sprintf("bin/check %s %s", prop.ID, tier),
 		},
@@ -407,4 +429,23 @@ func runMulti(args []string) int {
 		}
 	}
 	return rc
+}
+
+func mutantSummary(mres []MutantResult) map[string]any {
+	if mres == nil {
+		return map[string]any{"run": false, "note": "the mutant self-test runs in the thorough tier"}
+	}
+	det, na := 0, 0
+	var missed []string
+	for _, r := range mres {
+		switch r.Status {
+		case "detected":
+			det++
+		case "not-applicable":
+			na++
+		default:
+			missed = append(missed, r.ID+":"+r.Status)
+		}
+	}
+	return map[string]any{"run": true, "total": len(mres), "detected": det, "not_applicable": na, "missed": missed}
 }
